@@ -1,16 +1,15 @@
-N = {"quick": 480, "thorough": 6000}
-NPARSE = {"quick": 3200, "thorough": 100000}
+N = {"quick": 360, "thorough": 6000}
+NPARSE = {"quick": 2400, "thorough": 100000}
 PROP = dict(
     id="C13",
     module="FV.C13.Props",
     coq_targets=["theories/C13/Props.vo", "theories/C13/Tie.vo"],
     theorems=[
-        "lexer_total_and_tiles", "lexer_char_boundaries", "lexer_eof_only_at_nul",
-        "parser_new_returns", "token_primitives_do_not_panic", "split_with_pending_trivia_refuted",
-        "sink_prefix_invariant", "no_glyph_map_is_lossless", "rewrite_preserves_text",
-        "rewrite_diag_in_range", "consumed_up_to_first_eof", "front_end_lossless_without_nul",
-        "front_end_lossless_refuted_by_nul", "glyph_map_split_refuted",
-        "glyph_map_split_lossless_without_double_hyphen", "positions_consistent",
+        "lexer_total_and_tiles", "lexer_char_boundaries", "lexer_never_yields_eof",
+        "parser_new_returns", "token_primitives_do_not_panic", "split_remap_does_not_panic",
+        "sink_prefix_invariant", "glyph_map_split_is_lossless", "rewrite_preserves_text",
+        "rewrite_diag_in_range", "consumed_up_to_first_eof", "front_end_lossless",
+        "positions_consistent",
         "err_range_in_source", "err_range_on_char_boundaries", "err_before_ws_in_source_iff",
         "err_before_ws_refuted", "include_validate_terminates", "include_assembly_terminates",
         "include_cycle_is_reported", "include_depth_limit_refuted",
